@@ -340,11 +340,8 @@ solver_state_t solver_t::solve_with_inequality(const program_t& program, const v
         }
         if (iter == max_lsearch_iters)
         {
-            // NB: revert to previous state if the residual didn't improve!
-            if (state.residual() > r0)
-            {
-                program.update(state.m_x, state.m_u, state.m_v, miu, state);
-            }
+            // NB: revert to previous state, so that the objective and the residuals describe the returned point!
+            program.update(state.m_x, state.m_u, state.m_v, miu, state);
             done(program, state, epsilon, logger);
             break;
         }
